@@ -214,6 +214,34 @@ def run(prog: Program, ctx: Ctx) -> None:  # noqa: PLR0912,PLR0915
               for c in calls_in(f.node) if prog.resolve(f.module, dotted(c.func) or "") == f"{M}.Parameter"]
     kinded = bool(psites) and all(kwarg(c, "kind") is not None and not (isinstance(kwarg(c, "kind"), ast.Constant) and kwarg(c, "kind").value is None) for _f, c in psites)
     ctx.ob("R1", "parameter|kind-provenance", kinded, f"every Parameter built while loading ({len(psites)} sites) is given a kind", loc)
+    # where the kind is computed locally (the dataclasses extension) it is a ParameterKind member on every path: a table lookup with a default, a
+    # `.get()` or a conditional with a None branch would put `null` in the dump (the agents' kinds are decided on behaviour by C02-R1 / C17-R4)
+    from sa.util import stores_of
+
+    def never_none(fn: FunctionInfo, e: ast.AST | None, depth: int = 0) -> bool:
+        if e is None or depth > 4:
+            return False
+        if isinstance(e, ast.Attribute) and (dotted(e) or "").split(".")[-2:-1] == ["ParameterKind"]:
+            return True
+        if isinstance(e, ast.IfExp):
+            return never_none(fn, e.body, depth + 1) and never_none(fn, e.orelse, depth + 1)
+        if isinstance(e, ast.Name):
+            defs = [st for st in stores_of(fn.node, e.id)]
+            return bool(defs) and all(isinstance(st, ast.Assign) and never_none(fn, st.value, depth + 1) for st in defs)
+        if isinstance(e, ast.Subscript) and isinstance(e.value, ast.Name):
+            tbl = fn.module.assigns.get(e.value.id)
+            return isinstance(tbl, ast.Dict) and all(never_none(fn, v, depth + 1) for v in tbl.values)
+        if isinstance(e, ast.Call) and dotted(e.func):
+            g = prog.functions.get(prog.resolve(fn.module, dotted(e.func) or ""))
+            if g is not None:
+                rets = [r_ for r_ in walk_no_nested(g.node) if isinstance(r_, ast.Return)]
+                return bool(rets) and all(never_none(g, r_.value, depth + 1) for r_ in rets)
+        return False
+
+    for f_, c_ in psites:
+        if f_.module.name == "_griffe.extensions.dataclasses":
+            ctx.ob("R1", f"parameter|kind-never-null|{f_.name}|{norm(kwarg(c_, 'kind'), 40)}", never_none(f_, kwarg(c_, "kind")),
+                   f"the kind given to the synthesised parameter in {f_.name} (`{norm(kwarg(c_, 'kind'), 60)}`) is a ParameterKind member on every path", where(f_, c_))
     if kinded and "kind" in pwk:
         pwk["kind"].values = [ast.Constant("kind")]
     check("parameter", pcl, pwk, par.get("properties", {}), par.get("required", []), par.get("additionalProperties") is False, loc)
@@ -308,6 +336,13 @@ def run(prog: Program, ctx: Ctx) -> None:  # noqa: PLR0912,PLR0915
         except _Raised as r:
             got = f"raises {r.exc}"
         ctx.ob("R2", f"relative_package_filepath|{label}", got == want, f"{label}: relative_package_filepath = {got}; expected {want}", where(rpf))
+    # an alias is written from its own fields: nothing in Alias.as_dict may follow the alias (a resolved first link says nothing about the rest of the
+    # chain - aliases created by wildcard expansion are linked to members that may themselves be unresolvable imports)
+    for ad_ in prog.lookup_method(prog.cls(f"{M}.Alias"), "as_dict"):
+        ef.compute([ad_])
+        esc_a = {e: r for e, r in ef.escapes(ad_).items() if e in ("AliasResolutionError", "CyclicAliasError")}
+        ctx.ob("R2", "alias-writer|follows-no-alias", not esc_a, "Alias.as_dict raises no alias error (may-raise summary over the call graph)" if not esc_a else
+               f"Alias.as_dict can raise {sorted(esc_a)} ({next(iter(esc_a.values())).describe()}): one alias with a broken chain aborts the whole full dump", where(ad_))
     for k, m in getters:
         esc = {e: r for e, r in ef.escapes(m).items() if r.fn == m.qualname}  # raised by the getter itself
         if esc and m.name in TABLED_GETTERS:
